@@ -20,7 +20,8 @@ RtDemands(e) ==
   IN <<
     <<"H.next",     e.nexttext = nt>>,
     \* one read buffer: this record, then refilled with the following day and parsed again
-    <<"C01.reuse",  (fitsE => e.reuse[1] = good) /\ (fitsN => e.reuse[2] = <<1, nx.y, nx.m, nx.d>>)>>,
+    <<"C01.reuse",  (fitsE => (e.reuse[1] = good /\ e.reuse[3] = good /\ e.inkept)) /\ (fitsN => e.reuse[2] = <<1, nx.y, nx.m, nx.d>>)>>,
+    <<"C01.fmt_both", e.both = ext \o bas>>,
     <<"H.new",      e.new = <<e.y, e.m, e.d>> >>,           \* harness sanity: a calendar date
     <<"H.chain",    e.chain = 1 => (ctx.k = "date" /\ x = NextDay(ctx.v)) >>,
     <<"X.accessors", e.acc = <<e.y, e.m, e.d>> >>,                 \* Year(), Month(), Day()
@@ -118,9 +119,17 @@ TimeDemands(e) ==
      <<"C07.value", e.valeq>> >>
 
 FromTimeDemands(e) ==
-  LET want == <<e.t[1], e.t[2], e.t[3]>> IN
+  LET want == <<e.t[1], e.t[2], e.t[3]>>
+      x == D(e.t[1], e.t[2], e.t[3])
+      \* the same instant nine hours further east: the wall clock moves on by e.off2 - e.off seconds
+      secs == e.t[4] * 3600 + e.t[5] * 60 + e.t[6] + (e.off2 - e.off)
+      small == x.y < 2000000000 /\ x.y > -2000000000       \* TLC integers are 32 bits wide
+      x2 == IF small /\ secs >= 86400 THEN NextDay(x) ELSE x IN
   << <<"C07.fromtime", ~e.iszero => e.r = want>>,
-     <<"C07.scan",     ~e.iszero => e.scan = <<1>> \o want>> >>
+     <<"C07.scan",     ~e.iszero => e.scan = <<1>> \o want>>,
+     <<"H.off2",       e.off2 - e.off = 32400>>,
+     <<"C07.fromtime_zone", (~e.iszero /\ small) => e.r2 = <<x2.y, x2.m, x2.d>> >>,
+     <<"C07.time_after_fromtime", ~e.iszero => e.rt = <<e.t[1], e.t[2], e.t[3], 0, 1>> >> >>
 
 \* C15
 FBuildDemands(e, r) ==
